@@ -6,4 +6,4 @@ Set Extraction KeepSingleton.
 Extraction "extracted/c08/model.ml"
   Links.ast0 Links.adf_open Links.adf_close Links.adf_mutate Links.adf_read Links.adf_lookup Links.adf_setenv
   Links.h5_open Links.h5_mutate Links.h5_get Links.h5_lookup Links.disk_set Links.disk_del Links.find_file
-  Links.resolve Links.with_disk Links.adf_link_of Links.disk_get TreeDB.children TreeDB.find_node Links.file_open.
+  Links.resolve Links.with_disk Links.adf_link_of Links.disk_get TreeDB.children TreeDB.find_node Links.file_open Links.mll_set_path Links.mll_add_path Links.mll_configure.
